@@ -7,10 +7,10 @@
 (*   [st, out ("ok" | "reject"), cause, fills, fee, acts]                   *)
 (* and the property operators Inv_* (state) / Act_* (st, ev, result).       *)
 (*                                                                         *)
-(* st = [cash, pos, book, info, px, t, hour, open, bar, n, ntr, nref, done, *)
+(* st = [wallet, cash, pos, book, info, px, t, hour, open, bar, n, ntr, nref, done, eqBar, *)
 (*       ledger, settled, epochs, soldOut, setAt]                           *)
 (*   pos[i]  = [amt, avgBuy, buyAmt, avgSell, sellAmt]  (amt = 0: not held) *)
-(*   book[i] = [listed, asks, bids, mark, und]; a side is a sequence of     *)
+(*   book[i] = [listed, live, asks, bids, mark, und]; a side is a sequence of*)
 (*             levels [p, s] in book order (asks ascending, bids descending)*)
 (*   info[i] = [kind ("C" | "P"), K, exp]   exp in minutes                  *)
 (*   hour    = the bar is on the hour (settlement runs, code: _is_open())   *)
@@ -41,7 +41,8 @@ TradeFee(amt, prem)   == R6(QMin(QMul(TradeFeeRate, amt), QMul(MaxFeeRate, prem)
 DeliverFee(amt, prem) == R6(QMin(QMul(DeliveryFeeRate, amt), QMul(MaxFeeRate, prem)))
 
 ZeroPos == [amt |-> Zero, avgBuy |-> Zero, buyAmt |-> Zero, avgSell |-> Zero, sellAmt |-> Zero]
-NoRow   == [listed |-> FALSE, asks |-> <<>>, bids |-> <<>>, mark |-> Zero, und |-> Zero]
+NoRow   == [listed |-> FALSE, live |-> FALSE, asks |-> <<>>, bids |-> <<>>, mark |-> Zero, und |-> Zero]
+DustRel == QOf(1, 100000)          \* Asset.sub: |balance - amount| / balance < 1e-5 snaps the wallet balance to zero
 
 -----------------------------------------------------------------------------
 (* sequences of levels / fills *)
@@ -89,6 +90,9 @@ PosValue(st)  == LET I == Instrs(st)
                      Sum(S) == IF S = {} THEN Zero ELSE LET x == CHOOSE y \in S : TRUE IN QAdd(v(x), Sum(S \ {x}))
                  IN  Sum(I)
 Equity(st)    == QAdd(st.cash, PosValue(st))          \* get_market_balance().net_value on an hour bar
+(* account net value in the market's quote token (ETH): broker wallet + option account; times the ETH price = account quote *)
+NV(st)        == QAdd(st.wallet, Equity(st))
+NetValue(st, pxEth) == QMul(NV(st), pxEth)
 
 -----------------------------------------------------------------------------
 (* results *)
@@ -97,12 +101,17 @@ Tick(st)          == [st EXCEPT !.n = @ + 1]
 TickEv(st, ev)    == IF ev.op \in {"buy", "sell"} THEN [Tick(st) EXCEPT !.ntr = @ + 1] ELSE Tick(st)
 Reject(st, cause) == Res(Tick(st), "reject", cause, <<>>, Zero, <<>>)
 
+(* deposit moves wallet -> option cash; the wallet side is Asset.sub (overdraft refused, 1e-5 relative dust snapped to zero) *)
+WalletSnaps(w, amt) == w # Zero /\ QLt(QAbs(QDiv(QSub(w, amt), w)), DustRel)
 Deposit(st, ev) ==
-  Res([Tick(st) EXCEPT !.cash = QAdd(@, ev.amt), !.ledger = QAdd(@, ev.amt)], "ok", "", <<>>, Zero, <<>>)
+  LET w == st.wallet IN
+  IF ~WalletSnaps(w, ev.amt) /\ QLt(w, ev.amt) THEN Reject(st, "wallet")
+  ELSE Res([Tick(st) EXCEPT !.wallet = IF WalletSnaps(w, ev.amt) THEN Zero ELSE QSub(w, ev.amt),
+                            !.cash = QAdd(@, ev.amt), !.ledger = QAdd(@, ev.amt)], "ok", "", <<>>, Zero, <<>>)
 
 Withdraw(st, ev) ==
   IF QLt(st.cash, ev.amt) THEN Reject(st, "balance")
-  ELSE Res([Tick(st) EXCEPT !.cash = QSub(@, ev.amt), !.ledger = QSub(@, ev.amt)], "ok", "", <<>>, Zero, <<>>)
+  ELSE Res([Tick(st) EXCEPT !.wallet = QAdd(@, ev.amt), !.cash = QSub(@, ev.amt), !.ledger = QSub(@, ev.amt)], "ok", "", <<>>, Zero, <<>>)
 
 Buy(st, ev) ==
   LET i   == ev.i
@@ -112,6 +121,7 @@ Buy(st, ev) ==
   IN
   IF ~st.open THEN Reject(st, "closed")
   ELSE IF ~row.listed THEN Reject(st, "unlisted")
+  ELSE IF ~row.live THEN Reject(st, "inactive")
   ELSE IF QLt(ev.amt, MinAmount) THEN Reject(st, "min_amount")
   ELSE IF ev.mode = "lim" /\ el = <<>> THEN Reject(st, "no_level")
   ELSE IF QGt(amt, SumSizes(el)) THEN Reject(st, "depth")
@@ -144,6 +154,7 @@ Sell(st, ev) ==
   IN
   IF ~st.open THEN Reject(st, "closed")
   ELSE IF ~row.listed THEN Reject(st, "unlisted")
+  ELSE IF ~row.live THEN Reject(st, "inactive")
   ELSE IF QLt(ev.amt, MinAmount) THEN Reject(st, "min_amount")
   ELSE IF ev.mode = "lim" /\ el = <<>> THEN Reject(st, "no_level")
   ELSE IF QGt(amt, SumSizes(el)) THEN Reject(st, "depth")
@@ -174,7 +185,7 @@ Sell(st, ev) ==
 
 (* new bar within the C15 scenario: the visible book is reloaded, nothing else changes *)
 Refresh(st, ev) ==
-  Res([Tick(st) EXCEPT !.book = ev.book, !.nref = @ + 1], "ok", "", <<>>, Zero, <<>>)
+  Res([Tick(st) EXCEPT !.book = ev.book, !.open = ev.open, !.hour = ev.hour, !.nref = @ + 1], "ok", "", <<>>, Zero, <<>>)
 
 -----------------------------------------------------------------------------
 (* settlement (update phase of a bar), C16 *)
@@ -216,8 +227,9 @@ EndBar(st, ev) ==
   LET u  == Update(st)
       s2 == u.st
       nx == ev.next
-      s3 == IF nx.last THEN [Tick(s2) EXCEPT !.done = TRUE]
-            ELSE [Tick(s2) EXCEPT !.bar = @ + 1, !.t = nx.t, !.hour = nx.hour, !.open = nx.open, !.px = nx.px, !.book = nx.book]
+      s2b == [Tick(s2) EXCEPT !.eqBar = Equity(s2)]   \* option-account equity the bar's account row reports (x wallet, x price: NetValue)
+      s3 == IF nx.last THEN [s2b EXCEPT !.done = TRUE]
+            ELSE [s2b EXCEPT !.bar = @ + 1, !.t = nx.t, !.hour = nx.hour, !.open = nx.open, !.px = nx.px, !.book = nx.book]
   IN  Res(s3, "ok", "", <<>>, Zero, u.acts)
 
 Step(st, ev) ==
@@ -232,7 +244,7 @@ Step(st, ev) ==
 (* C15: state invariants *)
 NonNegSide(lv) == \A k \in DOMAIN lv : QGe(lv[k].s, Zero)
 Inv_C03_NonNeg(st) ==
-  /\ QGe(st.cash, Zero)
+  /\ QGe(st.cash, Zero) /\ QGe(st.wallet, Zero)
   /\ \A i \in Instrs(st) : /\ QGe(st.pos[i].amt, Zero) /\ QGe(st.pos[i].buyAmt, Zero) /\ QGe(st.pos[i].sellAmt, Zero)
                            /\ NonNegSide(st.book[i].asks) /\ NonNegSide(st.book[i].bids)
 (* cash is exactly the sum of the accepted flows (deposits, withdrawals, premiums, fees, settlement income) *)
@@ -268,7 +280,7 @@ Act_C15_LimitOnlyThatLevel(st, ev, r) ==
   (IsTrade(ev) /\ ev.mode = "lim") =>
      /\ r.out = "ok" => Len(r.fills) = 1 /\ NearPrice(r.fills[1].p, ev.px)
      /\ LET el == Eligible(SideOf(st, ev), st.book[ev.i].mark, ev, ev.op = "buy")  amt == RoundStep(ev.amt) IN
-        (  st.open /\ st.book[ev.i].listed /\ QGe(ev.amt, MinAmount) /\ el # <<>> /\ QLe(amt, el[1].s)
+        (  st.open /\ st.book[ev.i].listed /\ st.book[ev.i].live /\ QGe(ev.amt, MinAmount) /\ el # <<>> /\ QLe(amt, el[1].s)
          /\ (ev.op = "buy" => QLe(QAdd(QMul(el[1].p, amt), TradeFee(amt, QMul(el[1].p, amt))), st.cash))
          /\ (ev.op = "sell" => QLe(amt, Held(st, ev.i))) ) => r.out = "ok"
 Act_C15_CapExcludesWorse(st, ev, r) ==
@@ -278,7 +290,7 @@ Act_C15_BookShrinksByFills(st, ev, r) ==
   (IsTrade(ev) /\ r.out = "ok") =>
      LET b == st.book[ev.i]  b2 == r.st.book[ev.i]  fl == r.fills IN
      /\ \A j \in Instrs(st) \ {ev.i} : r.st.book[j] = st.book[j]
-     /\ b2.mark = b.mark /\ b2.und = b.und /\ b2.listed = b.listed
+     /\ b2.mark = b.mark /\ b2.und = b.und /\ b2.listed = b.listed /\ b2.live = b.live
      /\ IF ev.op = "buy" THEN b2.bids = b.bids /\ b2.asks = Deplete(b.asks, fl) ELSE b2.asks = b.asks /\ b2.bids = Deplete(b.bids, fl)
      /\ SumSizes(SideOf(r.st, ev)) = QSub(SumSizes(SideOf(st, ev)), SumAmt(fl))
 Act_C15_PositionExact(st, ev, r) ==
@@ -300,6 +312,19 @@ Act_C15_EquityMove(st, ev, r) ==      \* a trade moves equity by the fee and the
      LET m == R6(st.book[ev.i].mark)  prem == Premium(r.fills)  amt == SumAmt(r.fills) IN
      Equity(r.st) = IF ev.op = "buy" THEN QSub(QAdd(Equity(st), QMul(amt, m)), QAdd(prem, r.fee))
                     ELSE QSub(QAdd(Equity(st), QSub(prem, r.fee)), QMul(amt, m))
+(* C03 (owned by C03, carried here): with the market data frozen no call raises the account value by more than the wallet
+   dust of the balance it debits; books are sane (bids <= mark <= asks) in every universe *)
+SaneSide(lv, m, isAsk) == \A k \in DOMAIN lv : IF isAsk THEN QGe(lv[k].p, m) ELSE QLe(lv[k].p, m)
+SaneBooks(st) == \A i \in Instrs(st) : st.book[i].listed =>
+                    SaneSide(st.book[i].asks, R6(st.book[i].mark), TRUE) /\ SaneSide(st.book[i].bids, R6(st.book[i].mark), FALSE)
+Act_C03_NoValueCreation(st, ev, r) ==
+  (ev.op \in {"deposit", "withdraw", "buy", "sell"} /\ SaneBooks(st)) =>
+     LET dust == IF ev.op = "deposit" THEN QMul(DustRel, st.wallet) ELSE Zero IN
+     /\ QLe(NV(r.st), QAdd(NV(st), dust))
+     /\ (ev.op \in {"deposit", "withdraw"} /\ r.out = "ok" /\ ~(ev.op = "deposit" /\ WalletSnaps(st.wallet, ev.amt))) => NV(r.st) = NV(st)
+     /\ r.out = "reject" => NV(r.st) = NV(st)
+Act_C03_NoOverRedemption(st, ev, r) ==
+  (ev.op = "sell" /\ r.out = "ok") => QLe(SumAmt(r.fills), Held(st, ev.i))
 (* C04 (owned by C04, carried here): a rejected call changes nothing but the step counter *)
 Act_C04_RejectIntact(st, ev, r) == r.out = "reject" => r.st = TickEv(st, ev) /\ r.fills = <<>> /\ r.acts = <<>>
 
